@@ -21,14 +21,15 @@ LEVEL = "model_checking"
 META = {
     "technique": "TLA+ spec CacheFS (inode-level file system, 2 processes, crashes) model-checked exhaustively with TLC; "
     "TLC -simulate behaviours and enumerated crash points forced on the real perform_cached_doit by a "
-    "fork/interposition scheduler; recorded operation traces validated by Trace_CacheFS with TLC",
+    "fork/interposition scheduler (one OS process per model process, alive across its calls; the cache directory may "
+    "not exist yet); recorded operation traces validated by Trace_CacheFS with TLC",
     "text": "Exhaustive model checking of the caching algorithm's design for every interleaving/crash point within "
     "small bounds, bound to the code in both directions: specification behaviours are replayed as schedules "
     "on the real function, and every recorded file-operation trace must be a behaviour of the specification "
     "with ReturnsDoit/NeverRaises evaluated on the logged results. Histories x crash points x schedules is "
     "exactly the quantifier tests cannot sample.",
     "note": "Trusted: TLC, the inode model of POSIX open/replace, the interposition layer (open/os.open/stat/replace/unlink "
-    "on the cache directory), SIGKILL between operations or after n bytes as the crash model; bounds: 2-3 processes, "
+    "in the cache directory, mkdir/stat of the directory itself), SIGKILL between operations or after n bytes as the crash model; bounds: 2-3 processes, "
     "3 expressions (2 colliding), <=5 calls, <=2 crashes per behaviour.",
     "design_ref": "DESIGN.md §4 C16",
 }
